@@ -44,6 +44,7 @@ AppRet ==
   /\ \/ /\ inside # NoCall /\ inside.pc \in {"done", "failed"}
         /\ ApiRet(inside.a, inside.m, IF inside.pc = "done" THEN "" ELSE "error", IF inside.pc = "done" THEN FutName ELSE "")
      \/ \E w \in waiting : w.refused /\ ApiRet(w.a, w.m, "error", "")
+     \/ \E w \in waiting : w.left /\ ApiRet(w.a, w.m, IF w.pc = "done" THEN "" ELSE "error", IF w.pc = "done" /\ w.fut # 0 THEN "f" \o ToString(w.fut) ELSE "")
   /\ UNCHANGED <<app, bk, ncb, cbs, cuts, nconn>>
 
 (* -------------------------------- broker -------------------------------- *)
@@ -83,7 +84,8 @@ FoundInc == IF proc.pkt.id \in IncIds THEN LET x == CHOOSE y \in sessC.inc : y.i
             ELSE [t |-> "none", id |-> 0]
 CbMsg == IF proc.rel THEN (CHOOSE y \in sessC.inc : y.id = proc.pkt.id).msg ELSE proc.pkt.msg
 ClientStep ==
-  \/ E(\E w \in waiting : ~w.refused /\ ApiEnter(w))
+  \/ E(\E w \in waiting : ~w.refused /\ ~w.left /\ ApiEnter(w))
+  \/ E(ApiLeave)
   \/ /\ In("connect", "start") /\ nconn < 3 /\ Dial(ConnName(nconn + 1), "") /\ nconn' = nconn + 1
      /\ bk' = [bk EXCEPT !.reply = <<>>, !.got = <<>>] /\ UNCHANGED <<app, ncb, cbs, cuts>>
   \/ E(SessReset(""))
